@@ -57,6 +57,19 @@ def known_findings():
     return out
 
 
+KEYFIELDS = ("ev", "grp", "name", "ng", "rels", "subs", "sym", "in", "base", "k", "text")
+
+
+def finding_key(line):
+    """stable key of an event's INPUT (not of its outcome): sha1 over the input fields that are present"""
+    import hashlib
+    try:
+        e = json.loads(line)
+    except Exception:
+        return None
+    return hashlib.sha1(json.dumps({f: e[f] for f in KEYFIELDS if f in e}, sort_keys=True).encode()).hexdigest()[:16]
+
+
 class Ctx:
     def __init__(self, pid, tier, seed):
         self.pid = pid
@@ -255,6 +268,20 @@ class Ctx:
         lines = [ln for ln in open(events_path).read().split("\n") if ln.strip()]
         if not lines:
             raise ToolError(f"empty trace {events_path}")
+        # recorded (open) findings: an event that fails on its face (the call panicked) and whose input is listed in
+        # KNOWN_FINDINGS.txt is reported as KNOWN-FINDING and taken out of the trace; everything else is judged as usual
+        opened = {k: t for (p_, k, t) in known_findings() if p_ == self.pid}
+        if opened:
+            kept = []
+            for ln in lines:
+                if '"panic"' in ln:
+                    k = finding_key(ln)
+                    if k in opened:
+                        if opened[k] not in self.known:
+                            self.known.append(opened[k])
+                        continue
+                kept.append(ln)
+            lines = kept
         shards = []
         cur = []
         prev_grp = None
